@@ -229,6 +229,9 @@ structure DirectResponse where
   body : String
 deriving Repr
 
+/-- `NewRouteRuleImplBase`: response code 0 means 301; the scheme is lower-cased -/
+def redirectCodeDefault : Int := 301
+
 structure Redirect where
   code : Int
   scheme : String
@@ -270,8 +273,10 @@ def splitHostPort (h : String) : Option (String × String) :=
   | [a, b] => some (a, b)
   | _ => none
 
-/-- `url.URL{Scheme, Host, Path, RawQuery}.String()` for paths that need no escaping and start with `/` (or are empty) -/
+/-- `url.URL{Scheme, Host, Path, RawQuery}.String()` for non-empty schemes and paths that need no escaping (a relative path
+after a host gets a leading `/`) -/
 def urlString (scheme host path query : String) : String :=
+  let path := if host ≠ "" ∧ path ≠ "" ∧ path.toList.head? ≠ some '/' then "/" ++ path else path
   scheme ++ "://" ++ host ++ path ++ (if query.isEmpty then "" else "?" ++ query)
 
 /-- the `location` a redirect rule produces (defaults regenerated: `getStringOr`, port rule regenerated: `stripPort`) -/
